@@ -110,6 +110,36 @@ def run(tier):
         rsb = vlib.tlc("RetryStop", cfg="RSB.cfg", files={"RSB.cfg": rscfg.replace("%s = FALSE" % sw, "%s = TRUE" % sw)}, workers=1, timeout=300)
         if rsb.violated not in ("NoRace", "NoSendOnClosed"):
             raise vlib.Infra("non-vacuity: RetryStop with %s not refuted (%s)" % (sw, rsb.violated))
+    # ... and bound to the real RetryClient: recorded orders of its critical sections (hooks SetClient / pushTask / tgPop,
+    # fired under c.mu) while goroutines submit during SetClient / Connect / Disconnect must be behaviours of the model
+    # (TraceRetryStop.tla); a corrupted copy of the first trace must be rejected (the binding is not vacuous)
+    ssc = [{"id": "st%d" % k, "reqs": [], "plan": {}, "opts": {"stopApps": 3, "stopSkewUs": (k * 7) % 400}} for k in range(40 if tier == "quick" else 400)]
+    sres = rf.run_scenarios(binary, ssc, conc=1)
+    straces = [{"id": i, "evs": r_["evs"]} for i, r_ in sorted(sres.items()) if "evs" in r_ and not r_.get("info", {}).get("infra")]
+    if len(straces) < len(ssc) * 0.9:
+        raise vlib.Infra("stop-race runs: only %d of %d finished" % (len(straces), len(ssc)))
+    bad_copy = json.loads(json.dumps(straces[0]))
+    for e_ in bad_copy["evs"]:
+        if e_["e"] == "push":
+            e_["n"] += 1
+            break
+    bad_copy["id"] = "corrupted"
+    stext = "\n".join(json.dumps(x) for x in straces + [bad_copy]) + "\n"
+    st = vlib.tlc("TraceRetryStop", cfg="TraceRetryStop.cfg", files={"stop_traces.ndjson": stext}, workers=1, timeout=600, deque=True)
+    srep = st.printed("REPORT")
+    if st.violated:
+        verd.witness("retrystop-" + st.violated, "", "a recorded run of the RetryClient's critical sections violates %s of RetryStop.tla" % st.violated, {"tlc": st.out[-3000:]})
+        srows = []
+    elif not srep:
+        raise vlib.Infra("TraceRetryStop failed:\n" + st.out[-2000:])
+    else:
+        srows = json.loads(vlib.parse_tla_value(srep[-1]))
+    stop_rejected = [x["id"] for x in srows if x["hw"] != x["len"] + 1]
+    if srows and "corrupted" not in stop_rejected:
+        raise vlib.Infra("non-vacuity: TraceRetryStop accepted a corrupted trace")
+    stop_rejected = [x for x in stop_rejected if x != "corrupted"]
+    for sid in stop_rejected[:5]:
+        print("DRIFT property=C10 trace=%s: the recorded order of SetClient / pushTask / tgPop is not a behaviour of RetryStop.tla" % sid)
     # wire half on the real code
     scs = wire_scenarios(tier, rng)
     byid = {s["id"]: s for s in scs}
@@ -207,7 +237,7 @@ def run(tier):
     rc = verd.finish()
     vlib.write_evidence(PID, tier, "model_checking", {
         "states": r.states + rs.states, "transitions": r.generated + rs.generated, "traces_validated_against_impl": len(results),
-        "retry_stop_model_states": rs.states,
+        "retry_stop_model_states": rs.states, "retry_stop_traces_validated": len(straces) - len(stop_rejected), "retry_stop_traces_rejected": stop_rejected[:10],
         "wire_runs": len(results), "race_detector_runs": race_runs, "race_reports": races,
         "evaluations": len(results) + race_runs, "distinct_nontrivial": len({json.dumps(s["callers"]) for s in scs}),
         "rule": "3-8 concurrent callers with 2-5 operations each over {publish q0, publish q1, publish q2, subscribe, unsubscribe, ping}, 0-4 inbound QoS1+QoS2 messages, chunk size 1-3, optional concurrent Err/Done/Stats/Handle callers; acknowledgement bursts and abandoned requests (C07 scripts) under the race detector; the race detector runs the same compositions and reconnect scenarios with Handle/sample calls",
